@@ -234,4 +234,22 @@ PROPS = {
             "XML, xlsx, protobuf and archive codecs are outside the property's list and are only exercised for crashes by C10",
         ],
     },
+    "C19": {
+        "level": "fault_enumeration",
+        "technique": "property-based testing (rapid) against a file-tree reference model on an in-memory filesystem, plus exhaustive per-case enumeration of injected I/O errors at every filesystem operation",
+        "level_text": "Generated-input search: output dictionaries (nesting <= 3; strings, bytes, empty entries, nested dicts, (file:)/(dir:) tuples with every ifExists value; invalid members at any "
+                      "depth: numbers, arrays, tuples without or with both fields, non-string/empty/escaping keys, non-text file payloads, bogus and ill-combined ifExists) are written by "
+                      "arrai.OutputValue with --out=dir: onto generated pre-existing trees (overlapping files/directories, kind conflicts) on an afero MemMapFs holding canary files outside the "
+                      "target; --out=file: with text and non-text results. Oracle: a file-tree model (invalid anywhere or an ifExists:'fail' hit => error and byte-identical tree; valid => tree equals "
+                      "model(prior, description); nothing outside the target changes; a kind conflict without a rule => error, or success). Fault half: for 30% of the valid cases every filesystem "
+                      "operation of the run (Mkdir, Create/OpenFile, Write, Sync, RemoveAll) is failed in turn and the command must report failure each time (exhaustive per case).",
+        "level_note": "Trusted: the 120-line tree model in c19_test.go, afero MemMapFs as the filesystem, the fault-injecting wrapper, rapid. exhaustive refers to the fault points of each explored run, not to the space of descriptions.",
+        "tests": [{"name": "TestC19", "quick": 2000, "thorough": 30000}],
+        "exhaustive_key": "fault_points",
+        "rule": "non-trivial: the prior tree overlaps the description, or the description is invalid, or it uses at least two different ifExists values. Distinct = distinct case JSON.",
+        "assumptions": COMMON_ASSUMPTIONS + [
+            "keys containing '/' are not generated (the repository's own tests accept them, relying on the filesystem creating parents)",
+            "Close after a successful Sync and Stat errors other than not-exist are not injected",
+        ],
+    },
 }
